@@ -146,7 +146,7 @@ def cinv(A):
 
 # --- circuits ----------------------------------------------------------------
 def random_circuit(rng, ncomp_max=6, ports_max=4, kind="general", p_link=0.6, p_expose=0.8,
-                   allow_zero_exposed=False, unitary=False):
+                   allow_zero_exposed=False, unitary=False, shared_names=True):
     """A circuit description:
       comps: [{"pins": [names], "idx": [index of each pin in the matrix], "S": matrix (Fractions)}]
       links: [(a, p, b, q)] with a != b  (component indices, pin names)
@@ -156,7 +156,9 @@ def random_circuit(rng, ncomp_max=6, ports_max=4, kind="general", p_link=0.6, p_
     comps = []
     for c in range(ncomp):
         n = rng.randint(1, ports_max)
-        names = [f"p{c}x{i}" for i in range(n)]
+        # pin names are local to a component: by default the same few names (a0, a1, ...) recur on every
+        # component, as with library blocks; `shared_names=False` gives circuit-wide unique names
+        names = [f"a{i}" for i in range(n)] if shared_names else [f"p{c}x{i}" for i in range(n)]
         rng.shuffle(names)
         idx = list(range(n))
         rng.shuffle(idx)
